@@ -462,3 +462,177 @@ Proof.
   - apply load_with_total; [apply common_total | exact T2 | apply base_post_init_total].
 Qed.
 End Det3.
+
+(* ------------------------------------------------------------------------------------------ *)
+(* correlation rules *)
+Section Corr.
+Variable L : lib.
+
+Lemma corr_type_total cm : total (corr_type (YMap cm)).
+Proof.
+  unfold corr_type. cbn [dget obind]. destruct (assoc cm s_type) as [[| | | |s| | |]|]; cbn; eexists; reflexivity.
+Qed.
+Lemma corr_rules_total cm t : total (corr_rules (YMap cm) t).
+Proof. unfold corr_rules. cbn [dget obind]. eexists; reflexivity. Qed.
+Lemma corr_generate_total cm : total (corr_generate (YMap cm)).
+Proof. unfold corr_generate. cbn [dget obind]. eexists; reflexivity. Qed.
+Lemma corr_groupby_total cm : total (corr_groupby (YMap cm)).
+Proof. unfold corr_groupby. cbn [dget obind]. eexists; reflexivity. Qed.
+Lemma corr_timespan_total cm : total (corr_timespan L (YMap cm)).
+Proof. unfold corr_timespan. cbn [dget obind]. eexists; reflexivity. Qed.
+Lemma corr_aliases_nocrash cm : nocrash (corr_aliases (YMap cm)).
+Proof.
+  unfold corr_aliases. cbn [dget obind]. destruct (assoc cm s_aliases) as [[| | | | | | |a]|]; try apply nocrash_ok.
+  destruct (forallb (fun kv => is_map (snd kv)) a); [apply nocrash_ok | apply nocrash_err].
+Qed.
+Lemma int_or_cond_error_nocrash v : nocrash (int_or_cond_error L v).
+Proof.
+  unfold int_or_cond_error, py_int. destruct v as [| | |k|s| | |]; try apply nocrash_ok; try apply nocrash_err.
+  - destruct (N.eqb k 1); [apply nocrash_err|]. destruct (N.eqb k 2); [apply nocrash_err | apply nocrash_ok].
+  - destruct (int_ok L s); [apply nocrash_ok | apply nocrash_err].
+Qed.
+Lemma basic_condition_nocrash m : nocrash (basic_condition L m).
+Proof.
+  unfold basic_condition.
+  destruct (filter (fun kv => key_in cond_ops (fst kv)) m) as [|[k cnt] [|? ?]]; try apply nocrash_err.
+  match goal with |- context [if ?c then _ else _] => destruct c end; [apply nocrash_err|].
+  apply obind_nocrash; [apply int_or_cond_error_nocrash|]. intros _ _.
+  apply obind_nocrash; [destruct (assoc m s_percentile); [apply int_or_cond_error_nocrash | apply nocrash_ok]|].
+  intros _ _. apply nocrash_ok.
+Qed.
+Lemma corr_condition_nocrash cm t n : nocrash (corr_condition L (YMap cm) t n).
+Proof.
+  unfold corr_condition. cbn [dget obind].
+  destruct (assoc cm s_condition) as [[| | | |s| | |k]|]; try apply nocrash_ok.
+  - destruct (negb (is_temporal t)); [apply nocrash_ok|]. destruct (ext_refs L s); apply nocrash_ok.
+  - apply obind_nocrash; [apply basic_condition_nocrash | intros; apply nocrash_ok].
+Qed.
+
+Lemma corr_section_map m : exists cm e, corr_section (YMap m) = Ok (YMap cm, e) /\
+  (assoc m s_correlation = Some (YMap cm) \/ cm = []).
+Proof.
+  unfold corr_section. cbn [dget_opt obind].
+  destruct (assoc m s_correlation) as [[| | | | | | |cm]|]; eauto 6.
+Qed.
+
+Lemma corr_parse_nocrash m : nocrash (corr_parse L (YMap m)).
+Proof.
+  unfold corr_parse. destruct (corr_section_map m) as [cm [e0 [-> _]]]. cbn [obind fst snd].
+  destruct (corr_type_total cm) as [[t e1] ->]. cbn [obind fst snd].
+  destruct (corr_rules_total cm t) as [[rules e2] ->]. cbn [obind fst snd].
+  destruct (corr_generate_total cm) as [e3 ->]. destruct (corr_groupby_total cm) as [e4 ->].
+  destruct (corr_timespan_total cm) as [e5 ->]. cbn [obind].
+  apply obind_nocrash; [apply corr_aliases_nocrash|]. intros e6 _.
+  apply obind_nocrash; [apply corr_condition_nocrash|]. intros r7 _. apply nocrash_ok.
+Qed.
+
+Lemma corr_parse_rules m r :
+  corr_dom (YMap m) = true -> corr_parse L (YMap m) = Ok r -> forallb is_str (cs_rules (fst r)) = true.
+Proof.
+  intros Hd. unfold corr_parse. destruct (corr_section_map m) as [cm [e0 [-> Hcm]]]. cbn [obind fst snd].
+  destruct (corr_type_total cm) as [[t e1] ->]. cbn [obind fst snd].
+  assert (Hr : forall rules e2, corr_rules (YMap cm) t = Ok (rules, e2) -> forallb is_str rules = true).
+  { unfold corr_rules. cbn [dget obind]. intros rules e2 H.
+    destruct Hcm as [Hcm | ->].
+    - cbn [corr_dom] in Hd. rewrite Hcm in Hd.
+      destruct (assoc cm s_rules) as [[| | | |s| |l|]|]; inversion H; subst; try reflexivity. exact Hd.
+    - cbn in H. inversion H; reflexivity. }
+  destruct (corr_rules_total cm t) as [[rules e2] E2]. rewrite E2. cbn [obind fst snd].
+  specialize (Hr rules e2 E2).
+  destruct (corr_generate_total cm) as [e3 ->]. destruct (corr_groupby_total cm) as [e4 ->].
+  destruct (corr_timespan_total cm) as [e5 ->]. cbn [obind].
+  destruct (corr_aliases (YMap cm)) as [e6|?|?]; cbn [obind]; try discriminate.
+  destruct (corr_condition L (YMap cm) t (length rules)) as [r7|?|?]; cbn [obind]; try discriminate.
+  intros H. inversion H; subst. exact Hr.
+Qed.
+
+Lemma forallb_filter {A} (p q : A -> bool) l : forallb p l = true -> forallb p (filter q l) = true.
+Proof.
+  induction l as [|x l IH]; simpl; [reflexivity|]. intros H. apply andb_true_iff in H. destruct H as [H1 H2].
+  destruct (q x); simpl; [rewrite H1; simpl|]; apply IH; exact H2.
+Qed.
+Lemma str_hashable l : forallb is_str l = true -> forallb hashable l = true.
+Proof.
+  induction l as [|x l IH]; simpl; [reflexivity|]. intros H. apply andb_true_iff in H. destruct H as [H1 H2].
+  rewrite (IH H2). destruct x; try discriminate. reflexivity.
+Qed.
+
+Lemma corr_post_init_nocrash s : forallb is_str (cs_rules s) = true -> nocrash (corr_post_init s).
+Proof.
+  destruct s as [t rules k]. cbn [cs_rules]. intros Hs. unfold corr_post_init. cbn [cs_type cs_rules cs_cond].
+  apply obind_nocrash.
+  - destruct k as [| |refs]; try apply nocrash_ok.
+    destruct (negb (is_temporal t)); [apply nocrash_err|].
+    destruct rules as [|r0 rs]; [apply nocrash_ok|].
+    rewrite (str_hashable _ Hs). cbn [negb].
+    pose proof (forallb_filter is_str (fun r => negb (ref_in refs r)) _ Hs) as Hf.
+    destruct (filter (fun r => negb (ref_in refs r)) (r0 :: rs)) as [|u us].
+    + match goal with |- context [if ?c then _ else _] => destruct c end; [apply nocrash_ok | apply nocrash_err].
+    + rewrite Hf. apply nocrash_err.
+  - intros _ _. destruct k as [| h |refs].
+    + destruct (is_temporal t); [apply nocrash_ok | apply nocrash_err].
+    + destruct t; try apply nocrash_ok. destruct h; [apply nocrash_ok | apply nocrash_err].
+    + destruct (is_temporal t); [apply nocrash_ok | apply nocrash_err].
+Qed.
+
+Theorem corr_sigma_only d c : corr_dom d = true -> sigma_only (load_corr L c d).
+Proof.
+  intros Hd. destruct d as [| | | | | | |m]; try discriminate. unfold load_corr.
+  apply load_with_nocrash.
+  - apply common_total.
+  - unfold corr_stage2. apply obind_nocrash; [apply corr_parse_nocrash | intros; apply nocrash_ok].
+  - unfold corr_final. apply obind_nocrash; [apply total_nocrash; apply base_post_init_total|]. intros _ _.
+    apply obind_nocrash; [apply corr_parse_nocrash|]. intros r Hr.
+    apply corr_post_init_nocrash. exact (corr_parse_rules m r Hd Hr).
+Qed.
+
+Theorem corr_holds_partial d :
+  corr_dom d = true -> (exists errs, load_corr L true d = Ok errs) ->
+  C07_holds (load_corr L false d) (load_corr L true d).
+Proof.
+  intros Hd Hc. unfold load_corr in *. apply holds_of; [|exact Hc].
+  exact (corr_sigma_only d false Hd).
+Qed.
+
+Theorem corr_collect_raise_is_invalid d e :
+  load_corr L true d = SigmaErr e -> exists e', load_corr L false d = SigmaErr e'.
+Proof. apply load_with_collect_raise. Qed.
+End Corr.
+
+(* ------------------------------------------------------------------------------------------ *)
+(* witnesses: where the full statements fail, and that the premises are inhabited *)
+Definition lib_w : lib :=
+  {| uuid_ok := fun _ => true; int_ok := fun _ => true; re_ok := fun _ => true; cidr_ok := fun _ => true;
+     ext_refs := fun _ => Some [[114; 49]; [114; 50]] |}.        (* "r1", "r2" *)
+Definition k (s : str) := YStr s.
+(* title: t / correlation: {type: value_count, rules: r, timespan: 5m, condition: {gte: 1}} *)
+Definition w_corr_nofield : yv :=
+  YMap [(k s_title, k [116]);
+        (k s_correlation, YMap [(k s_type, k (lower_ascii s_VALUE_COUNT)); (k s_rules, k [114]);
+                                (k s_timespan, k [53; 109]); (k s_condition, YMap [(k s_gte, YInt 1)])])].
+(* title: t / correlation: {type: temporal, rules: [5, r1], timespan: 5m, condition: "r1 and r2"} *)
+Definition w_corr_intref : yv :=
+  YMap [(k s_title, k [116]);
+        (k s_correlation, YMap [(k s_type, k (lower_ascii s_TEMPORAL)); (k s_rules, YList [YInt 5; k [114; 49]]);
+                                (k s_timespan, k [53; 109]); (k s_condition, k [114; 49])])].
+(* title: t / logsource: {category: x} / detection: {sel: {f|contains|all: [a, b], g|re: x, h: 1}, condition: sel} *)
+Definition w_rule : yv :=
+  YMap [(k s_title, k [116]);
+        (k s_logsource, YMap [(k s_category, k [120])]);
+        (k s_detection, YMap [(k [115; 101; 108],
+                               YMap [(k ([102; 124] ++ s_contains ++ [124] ++ s_all), YList [k [97]; k [98]]);
+                                     (k ([103; 124] ++ s_re), k [120]); (k [104], YInt 1)]);
+                              (k s_condition, k [115; 101; 108])])].
+
+Lemma nonmap_refuted : forall L c, load_rule L c (YList [YStr [97]]) = Crash X_Attr.
+Proof. intros L c. reflexivity. Qed.
+Lemma corr_collect_total_refuted :
+  exists L d e, corr_dom d = true /\ load_corr L true d = SigmaErr e.
+Proof. exists lib_w, w_corr_nofield, ECorrRule. split; vm_compute; reflexivity. Qed.
+Lemma corr_sigma_only_refuted :
+  exists L d x, forall c, load_corr L c d = Crash x.
+Proof. exists lib_w, w_corr_intref, X_Type. intros c. destruct c; vm_compute; reflexivity. Qed.
+Lemma premises_inhabited :
+  rule_dom w_rule = true /\ load_rule lib_w true w_rule = Ok [] /\ load_rule lib_w false w_rule = Ok [] /\
+  corr_dom w_corr_nofield = true.
+Proof. repeat split; vm_compute; reflexivity. Qed.
